@@ -3,7 +3,7 @@ from mirlib import *
 from paths import *
 from shape import *
 from taint import Taint, operand_locals, rvalue_operands
-import r_dispatch, r_entrycost
+import r_dispatch, r_entrycost, r_enccost
 
 MANIFEST = {
     'category': 'other',
@@ -22,8 +22,13 @@ MANIFEST = {
             'MIR of max_*_buffer_length and its helpers (branches on state fields fork, crate-local helpers inlined, constants folded) and '
             'evaluated at that byte count: the query must cover the demand in every abstract state consistent with the path that the final '
             'stores of some decode path can leave the decoder in (73 entry paths decided on the pinned tree, several of them tight; shapes '
-            'not understood are counted as undecided, not reported). Not decided: sufficiency beyond the first failing test of a call '
-            '(an amortised cost argument per decoder), and the encoder queries.',
+            'not understood are counted as undecided, not reported). (D5, R-ENCCOST) the encoder queries of the handle-based encoders (Big5, EUC-JP, EUC-KR, gb18030 in both modes, Shift_JIS, '
+            'single-byte from UTF-8, x-user-defined): the closed form a*n + c of max_buffer_length_from_utf8/utf16_without_replacement is '
+            'extracted and the amortised budget invariant free >= a*(units left) + c is checked on every loop path: a character of a class that '
+            'occupies at least k source units is written with at most a*k bytes, and every space test (the ASCII fast path\'s test for the '
+            'non-ASCII character in hand, the explicit test after check_available) asks for at most a*(units ahead) + c bytes — 68 '
+            'obligations, many tight. Not decided: decoder sufficiency beyond the first failing test of a call (an amortised argument over '
+            'the decoder states), the ISO-2022-JP and UTF-8 encoder queries and the hand-written single-byte UTF-16 loop.',
     'note': 'Trusted: rustc MIR/instance resolution, mirx, rule library, semantics of core checked_* and cmp::max.',
     'technique': 'interprocedural taint analysis over MIR (must-not-reach sinks) + dispatch-table agreement + path summaries + closed-form extraction of the queries compared with per-path space demands',
 }
@@ -316,4 +321,5 @@ def run(rep, facts, tier):
         d3(rep, f, c)
         n, und = r_entrycost.run(rep, f, c)
         rep.floor('R-ENTRYCOST', 'entry paths to a failing space test decided against the query', n, 60, c)
+        r_enccost.run(rep, f, c)
     return ('other', MANIFEST['text'], ['numerical sufficiency of the formulas beyond the first failing space test of a call is NOT decided'])
